@@ -1034,6 +1034,11 @@ fn run_case(lines: Vec<String>, hints: Arc<Mutex<Vec<String>>>, resp: Arc<Mutex<
         lost.sort();
         if let Some((aid, d, n)) = lost.first() {
             mon.hit("C03", format!("event {aid}, accepted with deadline {d} and never cancelled, was delivered {n} time(s) although the simulation has reached time {horizon}: a scheduled event is delivered exactly once"));
+            if *n == 0 {
+                // every stepping call up to the horizon returned Ok: a computation triggered for a time that has been
+                // reached is still unfinished (or was dropped half-way) when the call returns (C04)
+                mon.hit("C04", format!("the stepping calls returned Ok up to time {horizon} although event {aid}, due at {d}, has not been delivered: a returned step is not complete"));
+            }
         }
     }
     for (aid, (t0p, p, key, _m)) in mon.series.clone() {
